@@ -9,13 +9,17 @@ spec-vs-reference stream).  That the public `parse_marker` additionally *simplif
 (`_compact_markers(top_level=True)` = `union(*sub_markers)`) without changing `validate` is C07's `union_sound`;
 the composition here stops at the un-simplified marker and depends on C07 for the last step.
 
-Proved for all strings (no bounds): the and/or/parenthesis structure with Python's laziness, exceptions included
-(`compact_agree`); leaf agreement for string variables with `==`/`!=` and for `extra == / !=` (`leaf_agree_*`);
-their composition for every marker text (`parse_eval_agree_partial`); version variables at token level
-(`leaf_agree_version_token`: `==,!=,<,<=,>,>=` on final releases of any length, through C04's bridge).  Stated,
-not proved (`leaf_agree_full_statement`): `in`/`not in` lists, reversed operands, the text → token step of the
-version variables and `~=` — with the two places where the statement is FALSE of model and code shown by
-concrete witnesses (`counterexample_*`).
+Proved for all strings and all numbers (no bounds):
+* the and/or/parenthesis structure with Python's laziness, exceptions included (`compact_agree`);
+* leaf agreement (`leaf_agree_*`, collected in `leaf_agree_partial` over `ProvedLeaf`) for: string variables with
+  `==`, `!=`, `in`/`not in` lists (by token), reversed `"lit" in name` / `"lit" not in name` (substring);
+  `extra == / !=`; `python_version` / `python_full_version` with `==,!=,<,<=,>,>=,~=` on literal TEXTS `X.Y…`
+  (string → digits → version round trip through `Nat.toDigits`, the `python_full_version` padding included) and
+  environment value texts `X'.Y'…`; plus the token-level statements for finals of any length;
+* their composition for every marker text (`parse_eval_agree_partial`).
+Stated, not proved (`leaf_agree_full_statement`): `in`/`not in` lists on the version variables (they need
+`VC.allows` on a `VersionUnion` of arbitrarily many members, i.e. totality of `_excluded_single_version`, open in
+C05).  Where the statement is FALSE of model and code: concrete witnesses (`counterexample_*`).
 -/
 import PoetryVerif.Proofs.MarkerEval
 import PoetryVerif.Proofs.MarkerLeaf
@@ -320,10 +324,11 @@ inductive ProvedLeaf (E : Env) : String → String → String → Bool → Prop
 that defines the variable with, for version variables, the text `X'.Y'…` of a final release -/
 inductive DomainLeaf (E : Env) : String → String → String → Bool → Prop
   | proved {n op v sw} : ProvedLeaf E n op v sw → DomainLeaf E n op v sw
-  /-- `python_version in "X.Y …"` -/
-  | pvList (op : String) (x0 : Nat × Nat) (rest : List (String × (Nat × Nat))) (x' : Nat) (r' : List Nat) :
+  /-- `python_version in "X.Y …"`, environment value `X'.Y'` (with a third component the wildcard reading
+  `X.Y.*` of the code differs from token equality) -/
+  | pvList (op : String) (x0 : Nat × Nat) (rest : List (String × (Nat × Nat))) (x' y' : Nat) :
       op ∈ ["in", "not in"] → (∀ p ∈ rest, SepRun p.1) →
-      E.get? "python_version" = some (relLit (x' :: r')) →
+      E.get? "python_version" = some (relLit [x', y']) →
       DomainLeaf E "python_version" op
         (listLit (relLit [x0.1, x0.2]) (rest.map fun p => (p.1, relLit [p.2.1, p.2.2]))) false
   /-- `python_full_version in "X.Y.Z …"` -/
